@@ -742,6 +742,7 @@ func TestVerifC19NUMAReplay(t *testing.T) {
 		dead := false
 		sawNUMA, sawCPU, sawShare, sawDup, sawTerminated, sawPodFinished, sawExclMismatchShape, sawSelfEvent, sawLate, sawResv := false, false, false, false, false, false, false, false, false, false
 		maxLive, checks := 0, 0
+		sawInheritedKept, sawInheritedOverridden := false, false
 		sawDeleted, sawEarly, sawPolicyChange, sawPolicyChangeInFlight := false, false, false, false
 
 		bound := func() []types.UID {
@@ -922,10 +923,23 @@ func TestVerifC19NUMAReplay(t *testing.T) {
 			selfEvent := rapid.Bool().Draw(t, "liveSeesOwnBindEvent")
 			viaAPI := rapid.IntRange(0, 3).Draw(t, "viaAPI") > 0
 			var resv *schedulingv1alpha1.Reservation
+			inherited := false
 			pod := tplPod // what the scheduling cycle runs on
 			what := c19PodStr(tplPod)
 			if asResv {
 				resv = c19NewReservation(tplPod, idx)
+				// The template may be a verbatim copy of a bound pod (Reservations created for a migration job copy the source
+				// pod's whole metadata): it then carries the allocation result of THAT pod. What pre-bind writes on the
+				// Reservation itself overrides it in the reserve pod.
+				if rapid.IntRange(0, 2).Draw(t, "templateCopiedFromBoundPod") == 0 {
+					ann := map[string]string{}
+					for k, v := range resv.Spec.Template.Annotations {
+						ann[k] = v
+					}
+					ann[extension.AnnotationResourceStatus] = rapid.SampledFrom([]string{`{}`, `{"cpuset":"0"}`, `{"cpuset":"0","numaNodeResources":[{"node":0,"resources":{"cpu":"1"}}]}`}).Draw(t, "inheritedAllocationResult")
+					resv.Spec.Template.Annotations = ann
+					inherited = true
+				}
 				pod = reservationutil.NewReservePod(resv)
 				what = "reservation r" + fmt.Sprint(idx) + " of " + what
 			}
@@ -976,6 +990,19 @@ func TestVerifC19NUMAReplay(t *testing.T) {
 				plg.Unreserve(ctx, cs, pod, c19Node)
 				hist = append(hist, fmt.Sprintf("schedule %s -> prebind: %s", what, st.Message()))
 				return
+			}
+			if inherited {
+				if _, own := obj.Resv.Annotations[extension.AnnotationResourceStatus]; !own {
+					// This cycle allocated nothing, so pre-bind wrote no result of its own and the reserve pod would keep the
+					// result copied from the source pod. Whether adopting that is right is not what C19 states; such a
+					// history is not continued (handled like a failed bind).
+					plg.Unreserve(ctx, cs, pod, c19Node)
+					sawInheritedKept = true
+					hist = append(hist, fmt.Sprintf("schedule %s -> nothing allocated, the inherited result would be kept: not continued", what))
+					return
+				}
+				sawInheritedOverridden = true
+				what += " [template carries the source pod's " + extension.AnnotationResourceStatus + "]"
 			}
 			if viaAPI {
 				obj = c19ViaAPI(t, obj)
@@ -1141,6 +1168,8 @@ func TestVerifC19NUMAReplay(t *testing.T) {
 		c.ClassIf(sawPodFinished, "pod-finished(delivered-as-delete)")
 		c.ClassIf(sawDeleted, "object-deleted")
 		c.ClassIf(sawEarly, "replay:add-unbound-then-bind-update")
+		c.ClassIf(sawInheritedOverridden, "reservation-template-carries-source-pod-allocation-result(overridden-by-own)")
+		c.ClassIf(sawInheritedKept, "inherited-result-would-be-kept(history-not-continued)")
 		c.ClassIf(sawPolicyChange, "node-cpu-bind-policy-changed")
 		c.ClassIf(sawPolicyChangeInFlight, "node-cpu-bind-policy-changed-between-reserve-and-prebind")
 		c.ClassIf(sawSelfEvent, "live-saw-own-bind-event")
